@@ -152,14 +152,17 @@ def isEndOfStream(substrate):
         yield result
 
     else:
-        received = substrate.read(1)
-        if received is None:
-            yield
+        while True:
+            received = substrate.read(1)
+            if received is None:  # non-blocking stream has no data yet
+                yield error.SubstrateUnderrunError()
+                continue
 
-        if received:
-            substrate.seek(-1, os.SEEK_CUR)
+            if received:
+                substrate.seek(-1, os.SEEK_CUR)
 
-        yield not received
+            yield not received
+            break
 
 
 def peekIntoStream(substrate, size=-1):
